@@ -5,7 +5,7 @@ TIER=${1:-quick}
 for i in $(seq -w 1 20); do
   id=C$i
   s=$(date +%s)
-  out=$(timeout ${ALL_TIMEOUT:-3600} ./check $id --tier $TIER 2>&1); rc=$?
+  out=$(timeout ${ALL_TIMEOUT:-14400} ./check $id --tier $TIER 2>&1); rc=$?
   e=$(date +%s)
   v=$(echo "$out" | grep -c '^VIOLATION')
   kf=$(echo "$out" | grep -c '^KNOWN-FINDING')
